@@ -320,7 +320,8 @@ def r02_5_unfiltered_alternatives(repo: Repo, rep: Report):
                 inner_guards += [guard_text(t, pol) for t, pol in guards_at(m, p, stop=lp)]
             outer = {guard_text(t, pol) for t, pol in guards_at(m, lp)}
             inner = [g for g in inner_guards if g not in outer and not g.startswith("isinstance(ret_, ByteVec)")]
-            ok = not bc and not inner
+            sliced = any(isinstance(n_, ast.Subscript) and isinstance(n_.slice, ast.Slice) for n_ in ast.walk(lp.iter)) or any(isinstance(n_, ast.Call) and call_name(n_) in ("islice", "itertools.islice", "zip", "filter", "random.sample") for n_ in ast.walk(lp.iter))
+            ok = not bc and not inner and not sliced
             rep.check("R02.5", ok, m, lp, f"for {src(lp.target)} in {src(lp.iter)[:60]}: ... stack.push(...)", f"alternative enumeration is filtered (break/continue: {len(bc)}, guards on push: {inner})")
     rep.floor("R02.5", 4, "calldataload candidates, symbolic JUMP targets, alias tail, cheatcode return list")
 
